@@ -184,9 +184,15 @@ def run_case(case, ctx):
         # refusal that the statement - "returned as a length-m vector" - does not exclude)
         wrap_out = np.array
         if kind == 'affine':
-            def f(z):
-                return wrap_out([_dot(A[i], z, n) + b[i] for i in range(m)])
-            exact = A.astype(float)
+            gain_kw = {}
+            if case['seed'] % 5 == 4 and not int_x:
+                # a parameter of f given at call time, by keyword only: Jacobian(f)(x, gain=2.5)
+                gain_kw = dict(gain=2.5)
+                ctx.count('parameter_of_f_given_by_keyword_at_call_time')
+
+            def f(z, gain=1.0):
+                return wrap_out([gain * _dot(A[i], z, n) + b[i] for i in range(m)])
+            exact = A.astype(float) * gain_kw.get('gain', 1.0)
         else:
             def f(z):
                 return wrap_out([np.sin(_dot(A[i], z, n)) * np.exp(_dot(B[i], z, n)) for i in range(m)])
@@ -208,7 +214,7 @@ def run_case(case, ctx):
                         pass
                     x_arg[...] = x_then
                     D._OBS.clear()
-                J, info = jobj(x_arg)
+                J, info = jobj(x_arg, **(gain_kw if kind == 'affine' else {}))
                 if x_then is not None:
                     ctx.count('callers_array_unchanged_asserted')
                     if x_arg.tobytes() != x_then.tobytes():
